@@ -103,6 +103,87 @@ def side_by_side(group):
     return out
 
 
+def document_strings(args):
+    """Strings edited into strings INSIDE documents (mapping keys with scalar and with container values, mapping values, list
+    elements, the root): the pair of documents is diffed by the real code, and for every edit of the finished script that
+    turns one string node into another, the character script is taken - from the StringEdit's own EditDistance, or, when the
+    code paired the two strings by a whole-value edit, as "nothing kept".  Returns [(a, b, events)]."""
+    da, db, opts = args
+    import graphtage
+    from graphtage.edits import Match, Replace
+    from graphtage.tree import explode_edits
+    from harness import docs
+    from harness.watchdog import Expired, deadline
+    out = []
+    try:
+        with deadline(30.0):
+            if isinstance(da, str):
+                import xml.etree.ElementTree as ET
+                ta, tb = docs.build_xml(ET.fromstring(da), opts), docs.build_xml(ET.fromstring(db), opts)
+            else:
+                ta, tb = docs.build(da, opts), docs.build(db, opts)
+            top = ta.edits(tb)
+            n = 0
+            while top.tighten_bounds() and n < 100000:
+                n += 1
+            for e in explode_edits(top):
+                f, t = e.from_node, getattr(e, "to_node", None)
+                if not (isinstance(f, graphtage.StringNode) and isinstance(t, graphtage.StringNode)):
+                    continue
+                if not (isinstance(f.object, str) and isinstance(t.object, str)) or f.object == t.object:
+                    continue
+                a, b = [ord(c) for c in f.object], [ord(c) for c in t.object]
+                if isinstance(e, graphtage.StringEdit):
+                    ed = e.edit_distance
+                    while ed.tighten_bounds():
+                        pass
+                    out.append((a, b, _script_of(ed, a, b)))
+                elif isinstance(e, (Match, Replace)):
+                    ev = [{"e": "subst", "i": k + 1, "j": k + 1} for k in range(min(len(a), len(b)))]
+                    ev += [{"e": "remove", "i": k + 1} for k in range(len(b), len(a))]
+                    ev += [{"e": "insert", "j": k + 1} for k in range(len(a), len(b))]
+                    out.append((a, b, ev + [{"e": "end"}]))
+    except Expired:
+        out.append(([97], [98], [{"e": "raise", "exc": "watchdog"}]))
+    except Exception as ex:
+        out.append(([97], [98], [{"e": "raise", "exc": "%s: %s" % (type(ex).__name__, str(ex)[:100])}]))
+    return out
+
+
+def string_documents(r, n):
+    """Pairs of documents in which strings are edited at every kind of position."""
+    from harness import docs
+    words = ("colour", "color", "settings_v1", "settings_v2", "name", "names", "abcabc", "bcabca", "address", "adress", "x", "xy",
+             "caf\u00e9", "cafe", "depth", "width")
+    out = []
+    for _ in range(n):
+        w1, w2 = r.sample(words, 2)
+        v1, v2 = r.sample(words, 2)
+        shape = r.randrange(7)
+        if shape == 0:
+            a, b = {w1: [1, 2, 3], "b": 2}, {w2: [1, 2, 3], "b": 2}              # renamed key, container value
+        elif shape == 1:
+            a, b = {w1: {"depth": 3}}, {w2: {"depth": 4}}                        # renamed key, both values mappings
+        elif shape == 2:
+            a, b = {w1: 1, "k": v1}, {w2: 1, "k": v2}                            # renamed key with scalar value; edited value
+        elif shape == 3:
+            a, b = [v1, w1, [w2]], [v2, w1, [v1]]                                # list elements
+        elif shape == 4:
+            a, b = {w1: [v1], "n": {"m": w1}}, {w2: [v2], "n": {"m": w2}}        # key and the string inside its container value
+        elif shape == 5:
+            a, b = {w1: v1, w2: [v2]}, {w1 + "_": v1, w2 + "2": [v2, 1]}         # two renamed keys competing in the matcher
+        else:
+            a, b = {"k": {w1: [1]}}, {"k": {w2: [1], "z": 1}}
+        out.append((a, b, r.choice(docs.ALL_OPTS[:3] + docs.ALL_OPTS[3:6])))
+        if len(out) % 4 == 0:
+            # XML: text of elements without and WITH child elements (mixed content), attribute values, tags
+            t1, t2 = r.choice((("hello world", "hello brave world"), ("intro", "introduction"), (w1, w2), (v1 + " " + w1, v1 + " " + w2)))
+            xa = "<doc><item k=\"%s\">%s<sub/></item><leaf>%s</leaf><p>%s<em>x</em>tail</p></doc>" % (v1, t1, t1, w1)
+            xb = "<doc><item k=\"%s\">%s<sub/></item><leaf>%s</leaf><p>%s<em>x</em>tail</p></doc>" % (v2, t2, t2, w2)
+            out.append((xa, xb, r.choice(docs.ALL_OPTS[:3])))
+    return out
+
+
 def _job(args):
     a, b, via = args
     return char_events(a, b, via)
@@ -241,6 +322,19 @@ def run():
             jobs.append((a, b, "side-by-side"))
             results.append(ev)
     chk.extra["side_by_side_groups"] = len(groups)
+    # strings edited inside documents
+    sdocs = string_documents(rng("c11-docs"), 200 if t == "quick" else 2000)
+    with ctx.Pool(min(16, os.cpu_count() or 4), initializer=_init, maxtasksperchild=500) as pool:
+        dres = pool.map(document_strings, sdocs, chunksize=8)
+    doc_of = {}
+    n_doc_strings = 0
+    for sd, found in zip(sdocs, dres):
+        for a, b, ev in found:
+            doc_of[len(jobs)] = sd
+            jobs.append((a, b, "document"))
+            results.append(ev)
+            n_doc_strings += 1
+    chk.extra["string_edits_found_inside_documents"] = n_doc_strings
     traces = [{"a": list(a), "b": list(b), "ev": ev} for (a, b, _), ev in zip(jobs, results)]
     shards = 8
     from concurrent.futures import ThreadPoolExecutor
@@ -266,6 +360,8 @@ def run():
             rp = {"a": a, "b": b, "via": via}
             if i in group_of:
                 rp["group"], rp["k"] = [[list(x), list(y)] for x, y in group_of[i][0]], group_of[i][1]
+            if i in doc_of:
+                rp["doc"] = list(doc_of[i])
             chk.violation(sig, rp,
                           "%r -> %r via %s: clause '%s' at event %d; script %s" % (
                               sa, sb, via, v["clause"], v["step"], json.dumps(traces[i]["ev"])[:400]))
@@ -276,7 +372,8 @@ def run():
                 "TLC), plus long pairs (33-64 characters: a short common block moved across an otherwise rewritten string, rotations) and "
                 "random pairs up to length %d (tiny and large alphabets, mutated copies, shared prefix/suffix, "
                 "reversals, repeats, non-ASCII); each diffed through StringNode.edits (2/3) or string_edit_distance (1/3); plus groups of 2-4 "
-                "same-shaped pairs whose edits are all created first and then refined in turns (side-by-side); "
+                "same-shaped pairs whose edits are all created first and then refined in turns (side-by-side); plus every string-to-string "
+                "edit found in the scripts of documents with renamed keys (scalar and container values), edited values and list elements; "
                 "distinct by (a, b, entry point); non-trivial = both non-empty and different" % (bin_len, tern_len, rand_len))
     chk.assumptions = ["characters are mapped to script positions by node identity in the per-character lists",
                        "LCS is computed by TLC from the textbook recurrence on the recorded strings"]
@@ -289,7 +386,10 @@ def replay(path):
     rp = doc["replay"]
     corpus._quiet_env()
     chk = Check("C11", "model_checking")
-    if rp["via"] == "side-by-side":
+    if rp["via"] == "document":
+        found = [x for x in document_strings(tuple(rp["doc"])) if x[0] == rp["a"] and x[1] == rp["b"]]
+        ev = found[0][2] if found else [{"e": "raise", "exc": "the string pair no longer occurs in the script"}]
+    elif rp["via"] == "side-by-side":
         ev = side_by_side([(a, b) for a, b in rp["group"]])[rp["k"]]
     else:
         ev = char_events(rp["a"], rp["b"], rp["via"])
